@@ -1,6 +1,7 @@
 import Infretis.Lemmas.RepexC03Load
 import Infretis.Lemmas.RepexC03AvailSys
 import Infretis.Lemmas.RepexC03Step
+import Infretis.Lemmas.RepexC03RRestore
 /-!
 # C03 — a busy ensemble, path, engine or work directory is never shared
 
@@ -519,5 +520,347 @@ example : countK exSys2.s.ensEng exSys2.s.n 0 = 1 ∧ exSys2.s.workers = 2
     ∧ (run exSys2 exEvs2).toBool = true
     ∧ ((run exSys2 exEvs2).toOption.map (fun y => y.s.occ)) = some [[0], [1, -1]] :=
   ⟨by decide +kernel, by decide +kernel, rfl, by decide +kernel, by decide +kernel⟩
+
+/-! ## 7. The same across restarts
+
+`InitR y0`: the state after a RESTART (`restart.toml` read back, paths re-loaded): every ensemble
+slot idle and holding its own path, nothing in flight, `locked0` = the jobs that were in flight at
+the stop — recorded slots pairwise distinct, each recorded path in its recorded slot with non-zero
+weight there, each record one ensemble or `[0-],[0+]` — to be re-issued by `pick_lock` one by one
+while `toinitiate ≥ 0`.  `Start y0 := Init y0 ∨ InitR y0`.
+
+`restart_is_initR` / `restart_closed`: restoring the image `persist y.s` of ANY state `y` reachable
+from a `Start` state (same number of slots; any workers, steps, engine table, recomputed weights;
+`load_paths` not raising) gives an `InitR` state again.  So the `_restart` theorems below hold at every
+instant of every chain  fresh start → run → stop → restart → run → stop → restart → …
+
+Invariant (`InvR`, RepexC03RSys): as `Inv`, and as long as `toinitiate ≥ 0` the recorded jobs still
+to be re-issued are "reserved": their slots are idle and keep their recorded paths — nothing can
+take them, because while `toinitiate ≥ 0` every `prep_md_items` goes through `pick_lock`, which
+re-issues the next record before it ever draws a fresh pick, `treat_output` only touches locked
+slots, and `sort_trajstate` only moves paths once `toinitiate = −1`.  The re-issue itself finds the
+recorded path in its recorded slot (live paths are distinct), so its swap is the identity and it
+locks exactly the recorded slots.  Records left over when `toinitiate` drops below 0 (fewer workers
+than records, or the early close of `initiate`) are never re-issued and carry no obligation.
+The fresh-start theorems of sections 1–5 are the special case `Start y0` by `Init y0`.
+Engine availability (section 6) is proved for fresh starts only. -/
+
+/-- **A restart from the restart file of any reachable state is an `InitR` state** (load success as
+    hypothesis; the C05 package proves it from the weight family). -/
+theorem restart_is_initR (y0 y : Sys) (evs : List Ev) (h0 : Start y0) (hl : y0.s.locked = [])
+    (hj : y0.jobs = []) (hr : run y0 evs = .ok y) (workers tsteps : Nat) (occ : List (List Int))
+    (ensEng : List (List Nat)) (weightOf : Nat → List Rat) (s' : St)
+    (h : restore (persist y.s) y.s.n workers tsteps occ ensEng weightOf = .ok s') :
+    InitR { s := s', jobs := [] } :=
+  restore_of_reachable_is_initR y0 y evs h0 hl hj hr workers tsteps occ ensEng weightOf s' h
+
+/-- the class of start states with an empty record is closed under run-stop-restart: this is the
+    induction step over chains of restarts -/
+theorem restart_closed (y0 y : Sys) (evs : List Ev) (h0 : Start y0) (hl : y0.s.locked = [])
+    (hj : y0.jobs = []) (hr : run y0 evs = .ok y) (workers tsteps : Nat) (occ : List (List Int))
+    (ensEng : List (List Nat)) (weightOf : Nat → List Rat) (s' : St)
+    (h : restore (persist y.s) y.s.n workers tsteps occ ensEng weightOf = .ok s') :
+    Start { s := s', jobs := [] } ∧ ({ s := s', jobs := [] } : Sys).s.locked = [] ∧
+      ({ s := s', jobs := [] } : Sys).jobs = [] := by
+  have hR := restart_is_initR y0 y evs h0 hl hj hr workers tsteps occ ensEng weightOf s' h
+  exact ⟨Or.inr hR, hR.locked, rfl⟩
+
+/-! a concrete restart: the history of section 0 is stopped after its first event (worker 0 holds
+the zero swap `[0-],[0+]` with paths 0, 1), the restart file is read back with 2 workers; then
+worker 0 gets the recorded zero swap re-issued, worker 1 starts `[1+]`, initiation closes, the zero
+swap completes ACCEPTED and worker 0 restarts on `[0-]`. -/
+
+def exWeight (pn : Nat) : List Rat := if pn = 0 then [1] else [1, 1, 0]
+
+def exR : St :=
+  match restore (persist (exAt 1).s) (exAt 1).s.n 2 10 [[-1, -1]] [[0], [0], [0]] exWeight with
+  | .ok s => s
+  | .error _ => exBlank
+
+def exSysR : Sys := { s := exR, jobs := [] }
+
+def exEvsR : List Ev :=
+  [ .start { t := 3, e := 3 },          -- re-issue: the outcome of the (not requested) draw is ignored
+    .start { t := 2, e := 2 },
+    .initDone,
+    .step 0 .acc [[1], [1, 1, 0]] { t := 0, e := 0, coin := false } ]
+
+def exRAt (k : Nat) : Sys :=
+  match run exSysR (exEvsR.take k) with
+  | .ok y => y
+  | .error _ => exSysR
+
+theorem ex_initR : InitR exSysR :=
+  restart_is_initR exSys (exAt 1) (exEvs.take 1) (Or.inl ex_init) (by decide +kernel) rfl
+    (ex_runs 1 (by decide)) 2 10 [[-1, -1]] [[0], [0], [0]] exWeight exR (by decide +kernel)
+
+theorem ex_runsR (k : Nat) (hk : k ≤ 4) : run exSysR (exEvsR.take k) = .ok (exRAt k) := by
+  match k, hk with
+  | 0, _ => decide +kernel
+  | 1, _ => decide +kernel
+  | 2, _ => decide +kernel
+  | 3, _ => decide +kernel
+  | 4, _ => decide +kernel
+
+example : exSysR.s.locked0 = [([0, 1], [0, 1])] ∧ exSysR.s.locks = [false, false, false, true]
+    ∧ exSysR.s.trajs = [some 0, some 1, some 2, none] ∧ exSysR.s.restarted = true := by
+  decide +kernel
+
+/-- a second restart in the chain: stop the restarted run after two events, restore again -/
+def exR2 : St :=
+  match restore (persist (exRAt 2).s) (exRAt 2).s.n 2 10 [[-1, -1]] [[0], [0], [0]] exWeight with
+  | .ok s => s
+  | .error _ => exBlank
+
+theorem ex_initR2 : InitR { s := exR2, jobs := [] } :=
+  restart_is_initR exSysR (exRAt 2) (exEvsR.take 2) (Or.inr ex_initR) (by decide +kernel) rfl
+    (ex_runsR 2 (by decide)) 2 10 [[-1, -1]] [[0], [0], [0]] exWeight exR2 (by decide +kernel)
+
+example : exR2.locked0 = [([0, 1], [0, 1]), ([2], [2])] ∧ exR2.locks = [false, false, false, true] := by
+  decide +kernel
+
+/-- no ensemble is held twice — before or after any number of restarts -/
+theorem inflight_ens_disjoint_restart (y0 y : Sys) (evs : List Ev) (h0 : Start y0) (hr : run y0 evs = .ok y) :
+    ((inflight y.jobs).map (·.ens)).Nodup := by
+  have hi := reach_invR h0 hr
+  have hn := hi.core.nodup
+  rw [held_eq, List.map_map] at hn
+  exact nodup_map_of_nodup_map (fun p => slotOf p) (·.ens) _ hn
+    (fun x _ y _ h => by simp only [slotOf]; rw [h])
+
+/-- no path is held twice — before or after any number of restarts -/
+theorem inflight_paths_disjoint_restart (y0 y : Sys) (evs : List Ev) (h0 : Start y0) (hr : run y0 evs = .ok y) :
+    ((inflight y.jobs).map (·.pn)).Nodup := by
+  have hi := reach_invR h0 hr
+  have hc := hi.core
+  have hn := hc.nodup
+  have : (inflight y.jobs).map (·.pn) = (held y.jobs).map Prod.snd := by
+    rw [held_eq, List.map_map]; rfl
+  rw [this]
+  refine nodup_map_of_nodup_map Prod.fst Prod.snd _ hn ?_
+  intro x hx z hz hxz
+  obtain ⟨e1, p1⟩ := x
+  obtain ⟨e2, p2⟩ := z
+  simp only at hxz
+  subst hxz
+  obtain ⟨h1, h2, _⟩ := hc.heldOk e1 p1 hx
+  obtain ⟨h3, h4, _⟩ := hc.heldOk e2 p1 hz
+  exact hc.inj e1 e2 p1 h1 h3 h2 h4
+
+/-- all live paths are distinct — before or after any number of restarts -/
+theorem live_paths_distinct_restart (y0 y : Sys) (evs : List Ev) (h0 : Start y0) (hr : run y0 evs = .ok y) :
+    (∀ e, e < y.s.n - 1 → ∃ pn, y.s.trajs[e]? = some (some pn) ∧ pn < y.s.trajNum) ∧
+    (∀ a b pn, a < y.s.n - 1 → b < y.s.n - 1 →
+      y.s.trajs[a]? = some (some pn) → y.s.trajs[b]? = some (some pn) → a = b) :=
+  ⟨(reach_invR h0 hr).core.live, (reach_invR h0 hr).core.inj⟩
+
+/-- busy ⇔ in flight — before or after any number of restarts (recorded jobs not yet re-issued are
+    idle: they are not in flight) -/
+theorem locks_iff_inflight_restart (y0 y : Sys) (evs : List Ev) (h0 : Start y0) (hr : run y0 evs = .ok y) :
+    y.s.locks.length = y.s.n ∧ y.s.locks[y.s.n - 1]? = some true ∧
+    ∀ e, e < y.s.n - 1 →
+      (y.s.locks[e]? = some true ↔ ∃ j ∈ y.jobs, ∃ p ∈ j.picked, p.ens = (e : Int) - 1) := by
+  have hi := reach_invR h0 hr
+  refine ⟨hi.core.lenL, hi.core.ghost, ?_⟩
+  intro e he
+  rw [hi.core.busy e he]
+  simp only [held, heldJob, List.map_flatMap, List.map_map, List.mem_flatMap, List.mem_map,
+    Function.comp_apply]
+  constructor
+  · rintro ⟨j, hj, p, hp, hs⟩
+    refine ⟨j, hj, p, hp, ?_⟩
+    have := (hi.jobs j hj).ensGe p hp
+    simp only [slotOf] at hs
+    omega
+  · rintro ⟨j, hj, p, hp, hs⟩
+    refine ⟨j, hj, p, hp, ?_⟩
+    simp only [slotOf]
+    omega
+
+/-- an unlocked slot is held by nobody — before or after any number of restarts -/
+theorem idle_not_held_restart (y0 y : Sys) (evs : List Ev) (h0 : Start y0) (hr : run y0 evs = .ok y)
+    (e : Nat) (he : y.s.locks[e]? = some false) : ∀ p ∈ inflight y.jobs, slotOf p ≠ e := by
+  have hi := reach_invR h0 hr
+  have hlt := hi.core.unlocked_lt e he
+  intro p hp hs
+  have : e ∈ (held y.jobs).map Prod.fst := by
+    rw [held_eq, List.map_map]
+    exact List.mem_map.mpr ⟨p, hp, hs⟩
+  rw [← hi.core.busy e hlt, he] at this
+  exact absurd this (by simp)
+
+/-- the held path sits in the job's slot with non-zero weight — also for re-issued jobs -/
+theorem picked_weight_nonzero_restart (y0 y : Sys) (evs : List Ev) (h0 : Start y0) (hr : run y0 evs = .ok y)
+    (j : Job) (hj : j ∈ y.jobs) (p : Picked) (hp : p ∈ j.picked) :
+    slotOf p < y.s.n - 1 ∧ y.s.trajs[slotOf p]? = some (some p.pn) ∧
+      entryM y.s.W (slotOf p) (slotOf p) ≠ 0 := by
+  have hi := reach_invR h0 hr
+  apply hi.core.heldOk
+  simp only [held, List.mem_flatMap]
+  exact ⟨j, hj, List.mem_map.mpr ⟨p, hp, rfl⟩⟩
+
+/-- one ensemble or exactly `[0-],[0+]`, both locked while in flight — also for re-issued jobs -/
+theorem zero_swap_holds_both_restart (y0 y : Sys) (evs : List Ev) (h0 : Start y0) (hr : run y0 evs = .ok y)
+    (j : Job) (hj : j ∈ y.jobs) :
+    j.picked.length = 1 ∨
+      (j.picked.map (·.ens) = [-1, 0] ∧ y.s.locks[0]? = some true ∧ y.s.locks[1]? = some true) := by
+  have hi := reach_invR h0 hr
+  rcases (hi.jobs j hj).shape with h1 | h2
+  · exact Or.inl h1
+  · obtain ⟨p, q, hpk, hp, hq⟩ := two_of_ens j.picked h2
+    have hmem : ∀ r ∈ j.picked, y.s.locks[slotOf r]? = some true := by
+      intro r hr
+      apply hi.core.held_locked _ r.pn
+      simp only [held, List.mem_flatMap]
+      exact ⟨j, hj, List.mem_map.mpr ⟨r, hr, rfl⟩⟩
+    refine Or.inr ⟨h2, ?_, ?_⟩
+    · simpa [slotOf, hp] using hmem p (by rw [hpk]; simp)
+    · simpa [slotOf, hq] using hmem q (by rw [hpk]; simp)
+
+/-- pins of jobs in flight are pairwise distinct — before or after any number of restarts -/
+theorem pins_distinct_restart (y0 y : Sys) (evs : List Ev) (h0 : Start y0) (hr : run y0 evs = .ok y) :
+    (y.jobs.map (·.pin)).Nodup :=
+  (reach_invR h0 hr).pins
+
+/-- no shared work directory — before or after any number of restarts -/
+theorem wfolder_exclusive_restart (y0 y : Sys) (evs : List Ev) (h0 : Start y0) (hr : run y0 evs = .ok y) :
+    (∀ j ∈ y.jobs, j.wfolder = j.pin) ∧ (y.jobs.map (·.wfolder)).Nodup := by
+  have hi := reach_invR h0 hr
+  refine ⟨fun j hj => (hi.jobs j hj).wf, ?_⟩
+  have : y.jobs.map (·.wfolder) = y.jobs.map (·.pin) :=
+    List.map_congr_left (fun j hj => (hi.jobs j hj).wf)
+  rw [this]
+  exact hi.pins
+
+/-- listed engine cells carry the job's pin — before or after any number of restarts -/
+theorem engine_cell_owned_restart (y0 y : Sys) (evs : List Ev) (h0 : Start y0) (hr : run y0 evs = .ok y)
+    (j : Job) (hj : j ∈ y.jobs) (p : Picked) (hp : p ∈ j.picked) (ki : Nat × Nat) (hki : ki ∈ p.engIdx) :
+    cell y.s.occ ki.1 ki.2 = some (j.pin : Int) :=
+  (reach_invR h0 hr).eng j hj p hp ki hki
+
+/-- no shared engine instance — before or after any number of restarts -/
+theorem engine_instance_exclusive_restart (y0 y : Sys) (evs : List Ev) (h0 : Start y0) (hr : run y0 evs = .ok y)
+    (i1 i2 : Nat) (j1 j2 : Job) (h1 : y.jobs[i1]? = some j1) (h2 : y.jobs[i2]? = some j2)
+    (p1 p2 : Picked) (hp1 : p1 ∈ j1.picked) (hp2 : p2 ∈ j2.picked) (ki : Nat × Nat)
+    (hk1 : ki ∈ p1.engIdx) (hk2 : ki ∈ p2.engIdx) : i1 = i2 := by
+  have hi := reach_invR h0 hr
+  have c1 := hi.eng j1 (List.mem_of_getElem? h1) p1 hp1 ki hk1
+  have c2 := hi.eng j2 (List.mem_of_getElem? h2) p2 hp2 ki hk2
+  rw [c1] at c2
+  have hpin : j1.pin = j2.pin := by simpa using c2
+  have hn := hi.pins
+  have hl1 := getElem?_lt_of_some _ _ _ h1
+  have hl2 := getElem?_lt_of_some _ _ _ h2
+  have e1 : (y.jobs.map (·.pin))[i1]? = some j1.pin := by simp [h1]
+  have e2 : (y.jobs.map (·.pin))[i2]? = some j1.pin := by simp [h2, hpin]
+  exact (List.getElem?_inj (by simpa using hl1) hn).mp (e1.trans e2.symm)
+
+example : Start exSysR ∧ run exSysR (exEvsR.take 1) = .ok (exRAt 1)
+    ∧ (exRAt 1).jobs.map (fun j => j.picked.map (fun p => (p.ens, p.pn))) = [[(-1, 0), (0, 1)]]
+    ∧ (exRAt 1).s.locks = [true, true, false, true] ∧ (exRAt 1).s.locked0 = []
+    ∧ (exRAt 1).s.locked = [([-1, 0], [0, 1])] :=
+  ⟨Or.inr ex_initR, ex_runsR 1 (by decide), by decide +kernel, by decide +kernel, by decide +kernel,
+    by decide +kernel⟩
+
+example : run exSysR exEvsR = .ok (exRAt 4)
+    ∧ (inflight (exRAt 4).jobs).map (fun p => (p.ens, p.pn)) = [(1, 2), (-1, 3)]
+    ∧ (exRAt 4).s.locks = [true, false, true, true]
+    ∧ (exRAt 4).jobs.map (fun j => (j.pin, j.wfolder)) = [(1, 1), (0, 0)]
+    ∧ (exRAt 4).s.occ = [[0, 1]] :=
+  ⟨ex_runsR 4 (by decide), by decide +kernel, by decide +kernel, by decide +kernel, by decide +kernel⟩
+
+theorem pickShape_two {locks : List Bool} {ps : List Picked} (h : PickShape locks ps) (h2 : ps.length = 2) :
+    locks[0]? = some false ∧ locks[1]? = some false := by
+  rcases h with h1 | h1
+  · omega
+  · exact h1.2
+
+/-- **a zero swap is only started when both `[0-]` and `[0+]` are idle — also across restarts**, and
+    also when the job is a recorded zero swap being re-issued (its two slots are reserved, hence idle):
+    a `start` event that submits a two-ensemble job found slots 0 and 1 unlocked. -/
+theorem zero_swap_start_needs_both_idle_restart (y0 y y' : Sys) (evs : List Ev) (h0 : Start y0)
+    (hr : run y0 evs = .ok y) (o : PickOutcome) (saved : Nat)
+    (hs : sysStep y (.start o saved) = .ok y') (job : Job) (hl : y'.jobs.getLast? = some job)
+    (h2 : job.picked.length = 2) : y.s.locks[0]? = some false ∧ y.s.locks[1]? = some false := by
+  have hi := reach_invR h0 hr
+  unfold sysStep at hs
+  rcases initiate_cases y.s with ⟨hin, _⟩ | ⟨ti, hti, hin⟩
+  · rw [hin] at hs; simp at hs
+  rw [hin] at hs
+  simp only [] at hs
+  split at hs
+  · exact absurd hs (by simp)
+  rename_i hgo
+  have hgo : ti - 1 ≥ 0 := by simpa using hgo
+  split at hs
+  · exact absurd hs (by simp)
+  rename_i s2 job' ds hprep
+  simp only [Except.ok.injEq] at hs
+  subst hs
+  simp only [List.getLast?_append, List.getLast?_singleton, Option.some_or, Option.some.injEq] at hl
+  subst hl
+  have hc1 := hi.core.congrTo
+    (s' := { y.s with cworker := ((y.s.workers : Int) - ti).toNat, toinitiate := ti - 1 })
+    rfl rfl rfl rfl rfl (by
+      show 0 ≤ ti - 1 → 0 ≤ y.s.toinitiate
+      rcases hti with h1 | h1 <;> omega)
+  have hshape := (prep_specR none o saved job' ds hc1 hprep).2.2.1
+  exact pickShape_two hshape h2
+
+/-- … and in the main loop, across restarts (also when the resubmitted job is a re-issued record):
+    each of slots 0 and 1 was idle or held by the job whose completion the event processes. -/
+theorem zero_swap_step_needs_both_idle_restart (y0 y y' : Sys) (evs : List Ev) (h0 : Start y0)
+    (hr : run y0 evs = .ok y) (k : Nat) (status : Status) (newW : List (List Rat)) (o : PickOutcome)
+    (hs : sysStep y (.step k status newW o) = .ok y') (job' : Job)
+    (hnew : y'.jobs = y.jobs.eraseIdx k ++ [job']) (h2 : job'.picked.length = 2) :
+    ∃ job, y.jobs[k]? = some job ∧ ∀ e, e = 0 ∨ e = 1 →
+      (y.s.locks[e]? = some false ∨ ∃ p ∈ job.picked, slotOf p = e) := by
+  have hi := reach_invR h0 hr
+  obtain ⟨job, s1, s2, pns, it, hjob, hloop, htreat, hcase⟩ := step_decompose k status newW o hs
+  refine ⟨job, hjob, ?_⟩
+  obtain ⟨hle, hltn, _, _, _⟩ := loop_coreEqR y.s
+  rw [hloop] at hle hltn
+  simp only [] at hle hltn
+  have hperm := held_perm_erase y.jobs k job hjob
+  have hc1 : CoreR s1 (heldJob job ++ held (y.jobs.eraseIdx k)) s1.trajNum := by
+    rw [hltn]
+    exact (hi.core.congr hle).perm hperm
+  obtain ⟨hc2, _, _, _, _, _, hn2, _, _, _⟩ := treatOutput_coreR job status newW _ pns it hc1 htreat
+  rcases hcase with ⟨_, s3, job'', ds, hprep, rfl⟩ | ⟨_, rfl⟩
+  · simp only [List.append_cancel_left_eq, List.cons.injEq, and_true] at hnew
+    subst hnew
+    have hidle := pickShape_two (prep_specR (some job.pin) o 0 job'' ds hc2 hprep).2.2.1 h2
+    intro e he
+    have he2 : s2.locks[e]? = some false := by
+      rcases he with rfl | rfl
+      · exact hidle.1
+      · exact hidle.2
+    have hlt : e < y.s.n - 1 := by
+      have := hc2.unlocked_lt e he2
+      rw [hn2, hle.n] at this
+      exact this
+    have hnot : e ∉ (held (y.jobs.eraseIdx k)).map Prod.fst := by
+      intro hm
+      have := (hc2.busy e (by rw [hn2, hle.n]; exact hlt)).mpr hm
+      rw [he2] at this
+      exact absurd this (by simp)
+    rcases bool_getElem?_cases y.s.locks e (by rw [hi.core.lenL]; omega) with hl | hl
+    · right
+      have hm := (hi.core.busy e hlt).mp hl
+      have hm' : e ∈ (heldJob job ++ held (y.jobs.eraseIdx k)).map Prod.fst :=
+        (hperm.map Prod.fst).mem_iff.mp hm
+      rw [List.map_append, List.mem_append] at hm'
+      rcases hm' with h1 | h1
+      · simp only [heldJob, List.map_map, List.mem_map, Function.comp_apply] at h1
+        exact h1
+      · exact absurd h1 hnot
+    · exact Or.inl hl
+  · exfalso
+    have := congrArg List.length hnew
+    simp at this
+
+example : exSysR.s.locks[0]? = some false ∧ exSysR.s.locks[1]? = some false
+    ∧ sysStep exSysR (.start { t := 3, e := 3 }) = .ok (exRAt 1)
+    ∧ (exRAt 1).jobs.map (fun j => j.picked.length) = [2] := by decide +kernel
 
 end Infretis.C03
